@@ -14,6 +14,8 @@ pub enum PeerOp {
     OpenBidi(usize),
     /// refer to a stream the h3 end opened: (key, stream id)
     Adopt(usize, u64),
+    /// like Adopt, but waits until the h3 end has opened that stream (needs `RawPeer::net`)
+    AdoptOpen(usize, u64),
     Write(usize, Vec<u8>),
     Fin(usize),
     Reset(usize, u64),
@@ -37,11 +39,12 @@ pub struct RawPeer {
     pub signals: Vec<Signal>,
     pub executed: usize,
     pub hooks_run: Vec<usize>,
+    pub net: Option<super::Net>,
 }
 
 impl RawPeer {
     pub fn new(side: Side, ops: Vec<PeerOp>) -> Self {
-        RawPeer { side, ops: ops.into(), streams: HashMap::new(), signals: Vec::new(), executed: 0, hooks_run: Vec::new() }
+        RawPeer { side, ops: ops.into(), streams: HashMap::new(), signals: Vec::new(), executed: 0, hooks_run: Vec::new(), net: None }
     }
     pub fn stream(&self, key: usize) -> Option<u64> {
         self.streams.get(&key).copied()
@@ -53,6 +56,7 @@ impl Actor for RawPeer {
         match self.ops.front() {
             None => false,
             Some(PeerOp::Barrier) => quiet,
+            Some(PeerOp::AdoptOpen(_, id)) => self.net.as_ref().map(|n| n.lock().pipes.contains_key(&(*id, self.side))).unwrap_or(true),
             Some(_) => true,
         }
     }
@@ -70,7 +74,7 @@ impl Actor for RawPeer {
                 let id = net.raw_open(side, Dir::Bidi);
                 self.streams.insert(k, id);
             }
-            PeerOp::Adopt(k, id) => {
+            PeerOp::Adopt(k, id) | PeerOp::AdoptOpen(k, id) => {
                 self.streams.insert(k, id);
             }
             PeerOp::Write(k, b) => {
